@@ -777,6 +777,33 @@ fn decl_forms(wsp: &str, w: u128, via_const: Option<&str>) -> Vec<DeclCase> {
     v
 }
 
+/// Const-identifier designators next to a *different* constant of the same name in a scope that
+/// the designator must not see (or, for the `inner-*` forms, must see): the width recorded is the
+/// one of the binding visible where the designator is written.
+fn shadow_forms(wsp: &str, w: u128) -> Vec<DeclCase> {
+    let fits = w <= u32::MAX as u128;
+    let w32 = if fits { Some(w as u32) } else { None };
+    let other: u32 = if w == 5 { 6 } else { 5 };
+    let mut v: Vec<DeclCase> = vec![];
+    let mut push = |key: &str, text: String, expect: Type| {
+        v.push(DeclCase { key: format!("shadow:{key}"), text, expect: if fits { Some(expect) } else { None }, fits, name: "v" });
+    };
+    let sub = |np: usize, w: Option<u32>| Type::SubroutineDef(SubroutineDef { num_params: np, return_type: Box::new(Type::Int(w, IsConst::True)) });
+    let g = format!("const int n = {wsp};\n");
+    push("def-return:body-const", format!("{g}def v() -> int[n] {{ const int n = {other}; return 1; }}"), sub(0, w32));
+    push("def-return:body-variable", format!("{g}def v() -> int[n] {{ int n = 2; return 1; }}"), sub(0, w32));
+    push("def-param:body-const", format!("{g}def f(int[n] v) {{ const int n = {other}; }}"), Type::Int(w32, IsConst::False));
+    push("after-block", format!("{g}if (true) {{ const int n = {other}; }}\nint[n] v;"), Type::Int(w32, IsConst::False));
+    push("after-def", format!("{g}def f() {{ const int n = {other}; }}\nuint[n] v;"), Type::UInt(w32, IsConst::False));
+    push("after-gate", format!("{g}gate g q {{ const int n = {other}; }}\nqubit[n] v;"), Type::QubitArray(ArrayDims::D1(w as usize)));
+    push("after-for", format!("{g}for int n in [0:1] {{ }}\nbit[n] v;"), Type::BitArray(ArrayDims::D1(w as usize), IsConst::False));
+    push("for-var:body-const", format!("{g}for int[n] v in [0:1] {{ const int n = {other}; }}"), Type::Int(w32, IsConst::False));
+    push("inner-block", format!("const int n = {other};\nif (true) {{ const int n = {wsp}; float[n] v; }}"), Type::Float(w32, IsConst::False));
+    push("inner-def", format!("const int n = {other};\ndef f() {{ const int n = {wsp}; angle[n] v; }}"), Type::Angle(w32, IsConst::False));
+    push("inner-while", format!("const int n = {other};\nwhile (false) {{ const int n = {wsp}; int[n] v; }}"), Type::Int(w32, IsConst::False));
+    v
+}
+
 fn check_decl_case(dc: &DeclCase, out: &mut Vec<Failure>) -> bool {
     if !clean_parse(&dc.text) {
         return false;
@@ -868,6 +895,12 @@ pub fn replay_c09(v: &serde_json::Value) -> Result<Vec<Failure>, String> {
                     }
                 }
             }
+            for dc in shadow_forms(&spell(*w, r), *w) {
+                if dc.text == text && key.ends_with(&dc.key) {
+                    check_decl_case(&dc, &mut out);
+                    return Ok(out);
+                }
+            }
         }
     }
     for np in 0..5 {
@@ -885,7 +918,7 @@ pub fn replay_c09(v: &serde_json::Value) -> Result<Vec<Failure>, String> {
 }
 
 pub fn run_c09(ctx: &RunCtx) {
-    ctx.set_rule("every declaration form (classical, const, input/output, def parameter, for variable, complex, bit register, qubit register, def qubit parameter, def return type; at global scope, in an if block, in a def body) x scalar types x widths {1,2,7,8,31,32,63,64,2^16,2^31,2^32-1,2^32,2^32+1,2^33,2^64,2^128-1} written as a literal in 5 spellings and through a const identifier of 3 types; negative / non-constant / undeclared / expression designators; gate signatures with 0-4 parameters and 1-4 qubits with and without stdgates; random widths across [1, 2^33] (thorough). oracle: the symbol's type equals the written type; a width that does not fit is diagnosed and never silently replaced; gates() lists exactly user + standard gates with their arities. non-trivial = a designator is present or the symbol is a gate/def; distinct by (form, type, width spelling, scope)");
+    ctx.set_rule("every declaration form (classical, const, input/output, def parameter, for variable, complex, bit register, qubit register, def qubit parameter, def return type; at global scope, in an if block, in a def body) x scalar types x widths {1,2,7,8,31,32,63,64,2^16,2^31,2^32-1,2^32,2^32+1,2^33,2^64,2^128-1} written as a literal in 5 spellings and through a const identifier of 3 types, and through a const identifier next to a different same-named binding in a parameter list, body, earlier block, def, gate or for loop (11 shadowing forms; a parameter of the same name as the constant is not judged: whether a signature sees earlier parameters is not stated by the property); negative / non-constant / undeclared / expression designators; gate signatures with 0-4 parameters and 1-4 qubits with and without stdgates; random widths across [1, 2^33] (thorough). oracle: the symbol's type equals the written type; a width that does not fit is diagnosed and never silently replaced; gates() lists exactly user + standard gates with their arities. non-trivial = a designator is present or the symbol is a gate/def; distinct by (form, type, width spelling, scope)");
     ctx.assume("the return type of a subroutine is compared up to const-ness; alias symbols are not judged");
     let mut cases: Vec<DeclCase> = vec![];
     for w in WIDTHS {
@@ -898,6 +931,7 @@ pub fn run_c09(ctx: &RunCtx) {
             }
             cases.extend(decl_forms(&spell(*w, 0), *w, Some(via)));
         }
+        cases.extend(shadow_forms(&spell(*w, 0), *w));
     }
     ctx.par_units(cases.len(), |i, st| {
         let dc = &cases[i];
@@ -1018,8 +1052,8 @@ enum Want {
     Int(u128, bool),       // magnitude, negated
     Float(f64, bool),
     Bits(String),
-    TimingInt(u128, &'static str),
-    TimingFloat(f64, &'static str),
+    TimingInt(u128, &'static str, bool),
+    TimingFloat(f64, &'static str, bool),
     ImagInt(u128, bool),
     ImagFloat(f64, bool),
     Bool(bool),
@@ -1168,16 +1202,20 @@ fn gen_lit(src: &mut Src) -> Lit {
             // timing: decimal integer or float, unit attached or separated by blanks
             let (unit, name) = UNITS[src.below(UNITS.len())];
             let gap = ["", "", " ", "  ", "\t"][src.below(5)];
+            let neg = src.chance(1, 4);
+            let m = if !neg {
+                ""
+            } else if src.bool() {
+                "-"
+            } else {
+                "- "
+            };
             if src.bool() {
                 let v = src.below(1_000_000) as u128;
-                Lit { spelling: format!("{v}{gap}{unit}"), want: Want::TimingInt(v, name), class: "timing-int" }
+                Lit { spelling: format!("{m}{v}{gap}{unit}"), want: Want::TimingInt(v, name, neg), class: if neg { "neg-timing-int" } else { "timing-int" } }
             } else {
                 let (s, v, _) = gen_float_spelling(src);
-                if s.ends_with('.') || s.contains("e") && s.ends_with(|c: char| c.is_ascii_digit()) && unit.starts_with('s') && false {
-                    Lit { spelling: format!("1.5{gap}{unit}"), want: Want::TimingFloat(1.5, name), class: "timing-float" }
-                } else {
-                    Lit { spelling: format!("{s}{gap}{unit}"), want: Want::TimingFloat(v, name), class: "timing-float" }
-                }
+                Lit { spelling: format!("{m}{s}{gap}{unit}"), want: Want::TimingFloat(v, name, neg), class: if neg { "neg-timing-float" } else { "timing-float" } }
             }
         }
         4 => {
@@ -1236,8 +1274,8 @@ fn check_lit(l: &Lit, got: Option<&asg::Literal>, ty: Option<&Type>, ctxname: &s
             let okt = ty.map(|t| t == &Type::BitArray(ArrayDims::D1(b.len()), IsConst::True)).unwrap_or(true);
             okv && okt
         }
-        (Want::TimingInt(v, u), asg::Literal::TimingIntLiteral(t)) => t.value() == v && *t.sign() && format!("{:?}", t.time_unit()) == *u,
-        (Want::TimingFloat(v, u), asg::Literal::TimingFloatLiteral(t)) => (t.value().to_bits() == v.to_bits() || (*t.value() == 0.0 && *v == 0.0)) && *t.sign() && format!("{:?}", t.time_unit()) == *u,
+        (Want::TimingInt(v, u, neg), asg::Literal::TimingIntLiteral(t)) => t.value() == v && *t.sign() == !*neg && format!("{:?}", t.time_unit()) == *u,
+        (Want::TimingFloat(v, u, neg), asg::Literal::TimingFloatLiteral(t)) => (t.value().to_bits() == v.to_bits() || (*t.value() == 0.0 && *v == 0.0)) && *t.sign() == !*neg && format!("{:?}", t.time_unit()) == *u,
         (Want::ImagInt(v, neg), asg::Literal::ImaginaryInt(i)) => i.value() == v && *i.sign() == !*neg,
         (Want::ImagFloat(v, neg), asg::Literal::ImaginaryFloat(f)) => float_eq(f.value(), *v, *neg),
         (Want::Bool(b), asg::Literal::Bool(x)) => x.value() == b,
@@ -1259,8 +1297,8 @@ fn check_ast_accessors(text: &str, lits: &[Lit], out: &mut Vec<Failure>) {
         if nodes.len() == lits.len() {
             for (n, l) in nodes.iter().zip(lits.iter()) {
                 let ok = match (n.kind(), &l.want) {
-                    (ast::LiteralKind::IntNumber(t), Want::Int(v, _) | Want::TimingInt(v, _) | Want::ImagInt(v, _)) => t.value() == Some(*v),
-                    (ast::LiteralKind::FloatNumber(t), Want::Float(v, _) | Want::TimingFloat(v, _) | Want::ImagFloat(v, _)) => t.value().map(|x| x.to_bits() == v.to_bits() || (x == 0.0 && *v == 0.0)).unwrap_or(false),
+                    (ast::LiteralKind::IntNumber(t), Want::Int(v, _) | Want::TimingInt(v, _, _) | Want::ImagInt(v, _)) => t.value() == Some(*v),
+                    (ast::LiteralKind::FloatNumber(t), Want::Float(v, _) | Want::TimingFloat(v, _, _) | Want::ImagFloat(v, _)) => t.value().map(|x| x.to_bits() == v.to_bits() || (x == 0.0 && *v == 0.0)).unwrap_or(false),
                     (ast::LiteralKind::BitString(t), Want::Bits(b)) => t.value().map(|s| s.replace('_', "") == *b).unwrap_or(false),
                     (ast::LiteralKind::Bool(x), Want::Bool(b)) => x == *b,
                     _ => false,
@@ -1352,7 +1390,7 @@ fn c10_case(src: &mut Src, out: &mut Vec<Failure>) -> (bool, Vec<Lit>) {
 pub fn run_c10(ctx: &RunCtx) {
     ctx.set_rule("literals in batches of up to 32 per program, each bare / negated / parenthesised, in expression-statement, declaration-initializer and gate-argument context: integers across all bit lengths 0..128 with edge values 2^k-1, 2^k, 2^k+1 in decimal / hex (both digit cases) / binary / octal, both prefix cases, random single underscores and leading zeros; floats in 7 spelling shapes and random doubles printed by std; bit strings up to 256 bits with underscores and both quote kinds; 6 time units and im, attached or separated by blanks; booleans. oracle: value in the graph = mathematical value (std parsing as trusted base for floats: bit equality), sign flag, unit, bit count = width; AST accessors IntNumber/FloatNumber/BitString::value agree. non-trivial = value >= 10 or spelling with _, prefix, exponent or unit; distinct by spelling");
     ctx.assume("str::parse::<f64> and u128 arithmetic of std are the trusted base; values >= 2^128 are outside this property (C03)");
-    let n = ctx.pick(40_000u64, 3_000_000u64);
+    let n = ctx.pick(400_000u64, 6_000_000u64);
     ctx.random("literal-batch", n, 400, |src| {
         let mut rep = CaseReport::default();
         let (judged, lits) = c10_case(src, &mut rep.failures);
